@@ -129,6 +129,15 @@ func (tx *Transaction) validateSigner(ctx *action.Context, signedTx action.Signe
 		return errors.New("invalid signatures count")
 	}
 
+	// a malformed signature or a payload without chain id must be rejected, not crash the node:
+	// go-ethereum panics on a signature that is not 65 bytes long, and ChainId().Cmp(nil) dereferences nil
+	if len(signedTx.Signatures[0].Signed) != 65 {
+		return errors.New("invalid signature length")
+	}
+	if tx.ChainID == nil {
+		return ethtypes.ErrInvalidChainId
+	}
+
 	//validate basic signature
 	signer := tx.getEthSigner(ctx)
 	ethTx := tx.tmToEthTx(ctx, signedTx.RawTx)
